@@ -137,6 +137,8 @@ def E_chain(db, a):
 
 
 def run(chk, w):
+    from . import c01 as _c01
+    _c01.prepare(w)
     db = access.AccessDB(w)
     chk.explanation = ("Lock-discipline and race analysis: (CON) the documented lock contracts of internal accessors are checked at every call site in "
                        "every calling context; (ACC) every load/store/memcpy/library call whose pointer is rooted (context-sensitive provenance) in a shared "
